@@ -113,3 +113,8 @@ META["C13"] = {
              "directory and content-different ones never do."),
     "note": "Interleavings are sampled, not enumerated; permutations are exhaustive up to 4 calls.",
 }
+META["C09"] = {
+    "technique": "rapid PBT over bundle worlds with rich package trees; round trips Close -> OpenDir and WriteArchive -> ExtractArchive compared through every accessor and a tree diff",
+    "text": "Every accessor of the bundle returned by Close is compared with the re-opened bundle and with the bundle extracted from its archive, plus a recursive comparison of the two directory trees.",
+    "note": "Lookups are compared relative to each bundle's own root.",
+}
